@@ -3,12 +3,13 @@ import json
 
 BASELINE_CMD = "cd /repo && /venv/bin/python -m pytest -ra -q -p no:cacheprovider --timeout=900 --continue-on-collection-errors"
 
-CLAIMED = {
-    "C03": dict(
-        text="Machine-checked proof (Coq 8.16, over R) of every clause of C03 for any number of grains, every phase/fabric, both dislocation-type regimes and every path of the solver kernel: orientation rate = A composed with a skew spin (Ad.A^T + A.Ad^T = 0), volume rates sum to zero, dead grains, linearity in M* and phi, growth criterion, and totality (no path raises). The per-grain kernel model is regenerated from /repo's source by a symbolic-execution translator on every run; the grain loop is a hand-written list model tied to the generated derivatives at n=1,2,3 by kernel-checked instance lemmas and to the compiled implementation by a differential run of the extracted model.",
-        note="Trusted: Coq kernel; translator (proxy numpy, path enumeration); ExtrOcamlBasic extraction + hand-written OCaml float driver; real-vs-binary64 gap (theorems are over R; finiteness in floats is checked at run time only); standard-library axioms of Reals (sig_forall_dec, sig_not_dec, classic, functional_extensionality_dep). Totality is proved under deformation_exponent <> 0 (p/n is a scalar division).",
-        design="5/C03", technique="Coq proof over R on a model regenerated from source by symbolic execution + instance lemmas + extracted-model differential run"),
-}
+import glob
+import os
+
+CLAIMED = {}
+for _p in sorted(glob.glob(os.path.join(os.path.dirname(os.path.abspath(__file__)), "manifest.d", "C*.json"))):
+    _d = json.load(open(_p))
+    CLAIMED[_d["property_id"]] = _d
 
 ALL = [f"C{i:02d}" for i in range(1, 21)]
 
@@ -32,6 +33,7 @@ def main():
         })
     na = [{"property_id": p, "reason": "check not built yet in this round (the design in DESIGN.md section 5 applies; nothing about the property makes proof inapplicable)"}
           for p in ALL if p not in CLAIMED]
+    groups = sorted({c.get("engine", "coq-proof") for c in CLAIMED.values()})
     m = {
         "version": 1,
         "setup_cmd": "./setup.sh",
